@@ -55,7 +55,7 @@ def const(e):
     raise SyntaxError("constant `%s`" % e)
 def val(a, env):
     a = a.strip()
-    if a in env and not env[a].startswith("B:"): return env[a]
+    if a in env and not env[a].startswith(("B:", "I:", "F:")): return env[a]
     raise SyntaxError("value `%s`" % a)
 def offs(a):
     a = " ".join(a.split())
@@ -74,6 +74,8 @@ def op_term(m, args, env):
     if m in BIN: return "(.bin .%s %s %s)" % (m, val(args[0], env), val(args[1], env)), True
     if m in ("ineg", "bswap"): return "(.un .%s %s)" % (m, val(args[0], env)), True
     if m in ("ireduce", "uextend", "sextend"): return "(.un (.%s %s) %s)" % (m, ty(args[0]), val(args[1], env)), True
+    if m == "icmp" and args[0].strip() == "intcc" and env.get("intcc"):
+        return "(.icmp intcc %s %s)" % (val(args[1], env), val(args[2], env)), True
     if m == "icmp":
         cc = re.fullmatch(r"IntCC::([A-Za-z]+)", args[0].strip())
         return "(.icmp .%s %s %s)" % (CCS[cc.group(1)], val(args[1], env), val(args[2], env)), True
@@ -127,6 +129,7 @@ def cond(c, env):
     if c in env and env[c].startswith("B:"): return env[c][2:]
     m = re.fullmatch(r"insn\.imm (==|!=) 0", c)
     if m: return "i.imm = 0" if m.group(1) == "==" else "i.imm ≠ 0"
+    if c == "(insn.opc & BPF_ALU_OP_MASK) == BPF_JSET": return "i.opc.toNat &&& %d = %d" % (C["BPF_ALU_OP_MASK"], C["BPF_JSET"])
     raise SyntaxError("condition `%s`" % c)
 def opc_pats(p):
     out = []
@@ -169,7 +172,7 @@ def block_to_lean(body, env, ind):
         if s_ in ("let mut flags = MemFlags::new()", "flags.set_endianness(Endianness::Little)"): continue
         pad = " " * ind
         m = re.fullmatch(r"let ([a-z0-9_]+)(?:: Type)? = match insn\.(opc|imm) \{ (.*) \}", s_)
-        if m:
+        if m and not (env.get("__ctl") and m.group(1) == "intcc"):
             name = camel(m.group(1)); arms = match_arms(m.group(3))
             vals = set(r for _, r in arms if r != "unreachable!()")
             if vals <= {"I8", "I16", "I32", "I64"}: tyname, conv = "Ty", (lambda r: "pure Ty." + r.lower())
@@ -184,6 +187,64 @@ def block_to_lean(body, env, ind):
             out[-1] += " : B %s)" % tyname
             env[m.group(1)] = ("B:" + name) if tyname == "Bool" else name
             continue
+        if env.get("__ctl"):
+            if s_ == "self.filled_blocks.insert(bcx.current_block().unwrap())": continue
+            if s_ == "insn_ptr += 1": env["__bumped"] = "1"; continue
+            if s_ == "let next_insn = ebpf::get_insn(prog, insn_ptr)" and env.get("__bumped"):
+                out.append(pad + "let nextInsn ← (match getInsn? p (pc + 1) with | some x => pure x | none => throw .panic : B Insn)"); env["next_insn"] = "I:nextInsn"; continue
+            if s_ == "let imm = (((insn.imm as u32) as u64) + ((next_insn.imm as u64) << 32)) as i64" and env.get("next_insn"):
+                env["__imm64"] = "((BitVec.setWidth 64 i.imm) + ((BitVec.signExtend 64 nextInsn.imm) <<< 32))"; continue
+            m = re.fullmatch(r"let ([a-z_]+) = bcx\.ins\(\)\.iconst\(I64, imm\)", s_)
+            if m and env.get("__imm64"):
+                env[m.group(1)] = camel(m.group(1)); out.append(pad + "let %s ← ins (.iconst .i64 %s)" % (camel(m.group(1)), env["__imm64"])); continue
+            if s_ == "let (_, target_block) = self.insn_targets[&(insn_ptr as u32)]":
+                out.append(pad + "let targetBlock ← lift (targetPc pc i)"); env["target_block"] = "targetBlock"; continue
+            if s_ == "let (fallthrough, target) = self.insn_targets[&(insn_ptr as u32)]":
+                out.append(pad + "let target ← lift (targetPc pc i)"); out.append(pad + "let fallthrough := pc + 1"); env["target"] = "target"; env["fallthrough"] = "fallthrough"; continue
+            m = re.fullmatch(r"bcx\.ins\(\)\.jump\(([a-z_]+), &\[\]\)", s_)
+            if m: out.append(pad + "emit (.jump %s)" % val(m.group(1), env)); continue
+            m = re.fullmatch(r"bcx\.ins\(\)\.return_\(&\[([a-z_]+)\]\)", s_)
+            if m: out.append(pad + "emit (.ret %s)" % val(m.group(1), env)); continue
+            m = re.fullmatch(r"bcx\.ins\(\)\.brif\(([a-z_]+), ([a-z_]+), &\[\], ([a-z_]+), &\[\]\)", s_)
+            if m: out.append(pad + "emit (.brif %s %s %s)" % tuple(val(x, env) for x in m.groups())); continue
+            m = re.fullmatch(r"let ([a-z0-9_]+) = bcx\.use_var\(self\.registers\[(\d+)\]\)", s_)
+            if m: env[m.group(1)] = camel(m.group(1)); out.append(pad + "let %s ← useVar %s" % (camel(m.group(1)), m.group(2))); continue
+            if s_.startswith("unimplemented!("): out.append(pad + "throw .panic"); continue
+            m = re.fullmatch(r"if insn\.src != 0 \{ return Err\(Error::new\(.*\)\); \}", s_)
+            if m: out.append(pad + "if i.src ≠ 0 then throw .err"); continue
+            m = re.fullmatch(r"let func_ref = self \.helper_func_refs \.get\(&\(insn\.imm as u32\)\) \.copied\(\) \.ok_or_else\(\|\| \{.*\}\)\?", s_)
+            if m: out.append(pad + "if !helpers i.imm.toNat then throw .err"); env["func_ref"] = "F:"; continue
+            m = re.fullmatch(r"let call = bcx\.ins\(\)\.call\(func_ref, &\[([a-z0-9_, ]+)\]\)", s_)
+            if m and env.get("func_ref") == "F:":
+                env["__call"] = "(.call i.imm.toNat [%s])" % ", ".join(val(x, env) for x in m.group(1).split(",")); continue
+            m = re.fullmatch(r"let ([a-z_]+) = bcx\.inst_results\(call\)\[0\]", s_)
+            if m and env.get("__call"):
+                env[m.group(1)] = camel(m.group(1)); out.append(pad + "let %s ← ins %s" % (camel(m.group(1)), env["__call"])); continue
+            m = re.fullmatch(r"let is_reg = \(insn\.opc & BPF_X\) != 0", s_)
+            if m: out.append(pad + "let isReg : Bool := i.opc.toNat &&& %d != 0" % C["BPF_X"]); env["is_reg"] = "B:isReg"; continue
+            m = re.fullmatch(r"let is_32 = \(insn\.opc & ebpf::BPF_CLS_MASK\) == BPF_JMP32", s_)
+            if m: out.append(pad + "let is32 : Bool := i.opc.toNat &&& %d == %d" % (C["BPF_CLS_MASK"], C["BPF_JMP32"])); env["is_32"] = "B:is32"; continue
+            m = re.fullmatch(r"let intcc = match insn\.opc \{ (.*) \}", s_)
+            if m:
+                out.append(pad + "let intcc ← (match i.opc.toNat &&& %d with" % C["BPF_ALU_OP_MASK"])
+                for a_ in split_top(m.group(1), ","):
+                    a_ = a_.strip()
+                    if a_ == "": continue
+                    q = re.fullmatch(r"c if \(c & BPF_ALU_OP_MASK\) == (BPF_[A-Z]+) => IntCC::([A-Za-z]+)", a_)
+                    if q: out.append(pad + "  | %d => pure CC.%s" % (C[q.group(1)], CCS[q.group(2)])); continue
+                    if a_ == "_ => unreachable!()": out.append(pad + "  | _ => throw .panic : B CC)"); continue
+                    raise SyntaxError("intcc arm " + a_)
+                env["intcc"] = "intcc"; continue
+            m = re.fullmatch(r"let rhs = match \(is_reg, is_32\) \{ (.*) \}", s_)
+            if m:
+                out.append(pad + "let rhs ← match isReg, is32 with")
+                for a_ in split_top(m.group(1), ","):
+                    a_ = a_.strip()
+                    if a_ == "": continue
+                    q = re.fullmatch(r"\((true|false), (true|false)\) => (self\..*)", a_)
+                    if not q: raise SyntaxError("rhs arm " + a_)
+                    act, _v = rhs(q.group(3), env); out.append(pad + "  | %s, %s => %s" % (q.group(1), q.group(2), act))
+                env["rhs"] = "rhs"; continue
         m = re.fullmatch(r"let is_ind = \(insn\.opc & BPF_IND\) != 0", s_)
         if m: out.append(pad + "let isInd : Bool := i.opc.toNat &&& %d != 0" % 0x40); env["is_ind"] = "B:isInd"; continue
         m = re.match(r"(?:let ([a-z0-9_]+) = )?if ([^{]*)\{", s_)
@@ -306,6 +367,24 @@ try:
             arm_lines[-1] += ")"; simple += ops
         except SyntaxError:
             complex_ += ops
+    ctl_lines = []; ctl_ops = []; rest_ops = []
+    for pats, body in arms:
+        if pats == ["_"]: continue
+        ops = [C[re.fullmatch(r"ebpf::([A-Z0-9_]+)", p_).group(1)] for p_ in pats]
+        if ops[0] in simple: continue
+        try:
+            b_ = body.strip()
+            if b_.startswith("{") and balanced(b_, 0) == len(b_): b_ = b_[1:-1]
+            l = block_to_lean(b_, {"__ctl": "1"}, 6)
+            ctl_lines.append("  | %s => some (do" % " | ".join(str(o_) for o_ in ops)); ctl_lines += l; ctl_lines[-1] += ")"; ctl_ops += ops
+        except SyntaxError as ex2:
+            rest_ops += ops; ctl_lines.append("  -- not translated (%s): %s" % (ops[0], str(ex2).replace("\n", " ")[:100]))
+    complex_ = rest_ops
+    lines += ["/-- the arms with control flow of their own (`ja`, the conditional jumps, `call`, `tail_call`, `exit`): `insn_targets[&insn_ptr]` is the table `build_cfg` filled",
+              "    (`targetPc`; the fall-through block is the next instruction's) -/",
+              "def ctlArmSrc (helpers : Nat → Bool) (p : Bytes) (pc : Nat) (i : Insn) : Option (B Unit) :=", "  match i.opc.toNat with"] + ctl_lines + ["  | _ => none",
+              "def ctlOpcodes : List Nat := %s" % str(sorted(ctl_ops)),
+              "/-- the default arm is `unimplemented!(..)` -/", "def defaultArmPanics : Bool := %s" % ("true" if any(pt == ["_"] and " ".join(bd.split()).strip("{} ").startswith("unimplemented!(") for pt, bd in arms) else "false"), ""]
     lines += ["/-- the arms of `translate_program` that are a straight line of builder calls, by opcode; `none`: the arm has control flow of its own (or there is no such arm) -/",
               "def straightArmSrc (i : Insn) : Option (B Unit) :=", "  match i.opc.toNat with"] + arm_lines + ["  | _ => none",
               "def straightOpcodes : List Nat := %s" % str(sorted(simple)), "def otherOpcodes : List Nat := %s" % str(sorted(complex_)), "def armsSrcOk : Bool := true", ""]
